@@ -1421,7 +1421,7 @@ func TestCheck(t *testing.T) {
 	c.RunE1(engine.E1{Part: "issuer-strings", Space: issSpace, K: len(issSpace), NewWorker: worker("issuer-strings")})
 	c.RunE1(engine.E1{Part: "issuer-paths", Space: pathSpace, K: len(pathSpace), NewWorker: worker("issuer-paths")})
 	c.RunE1(engine.E1{Part: "rp-discover", Space: discSpace, K: len(discSpace), NewWorker: worker("rp-discover")})
-	ri, li := provSpace.Idx("router"), provSpace.Idx("legacyEP")
+	ri, li, ei, pi := provSpace.Idx("router"), provSpace.Idx("legacyEP"), provSpace.Idx("eps"), provSpace.Idx("probe")
 	c.RunE1(engine.E1{
 		Part:  "provider",
 		Space: provSpace,
@@ -1431,7 +1431,10 @@ func TestCheck(t *testing.T) {
 		},
 		Ks: ks,
 		// the LegacyServer's own Endpoints do not exist on the Provider router
-		Skip:      func(v engine.Vec) bool { return v[ri] == 0 && v[li] != 0 },
+		// ... and a provider whose construction is refused has nothing to probe: one probe value suffices
+		Skip: func(v engine.Vec) bool {
+			return (v[ri] == 0 && v[li] != 0) || (provSpace[ei].Vals[v[ei]] == "nil-token" && v[pi] != 0)
+		},
 		NewWorker: worker("provider"),
 	})
 	p.close()
